@@ -64,3 +64,76 @@ Theorem lreq_trailing_refused doc : lreq_of_doc true doc = None.
 Proof. reflexivity. Qed.
 Theorem aquery_trailing_refused doc : aquery_of_doc true doc = None.
 Proof. reflexivity. Qed.
+
+(** * registration: the service-provider record of the models from the registered metadata DOCUMENT
+    NewServiceProvider = ParseMetadataXmlIntoStruct (Unmarshal into md.EntityDescriptorType) and nothing else that touches
+    the endpoints: the consumer services (in document order, with index / isDefault / binding / location as written), the
+    logout locations, the key descriptors and the AuthnRequestsSigned flag the handler models use are exactly the
+    document's.  Checked against the library's ServiceProvider on every case that involves one. *)
+From Saml Require Import Gen.Pure.
+
+Definition strs_of (sch : schema) (ty : string) (names : list string) (g : gval) : option (list bytes) :=
+  (fix go (ns : list string) : option (list bytes) :=
+     match ns with
+     | [] => Some []
+     | n :: r => match str_field sch ty g n, go r with Some s, Some ss => Some (s :: ss) | _, _ => None end
+     end) names.
+Definition map_opt {A B} (f : A -> option B) (l : list A) : option (list B) :=
+  (fix go (l : list A) : option (list B) :=
+     match l with [] => Some [] | x :: r => match f x, go r with Some y, Some ys => Some (y :: ys) | _, _ => None end end) l.
+
+Definition acs_of (sch : schema) (e : gval) : option IndexedEndpointType :=
+  match strs_of sch "md.IndexedEndpointType" ["Index"; "IsDefault"; "Binding"; "Location"; "ResponseLocation"] e with
+  | Some [i; d; bnd; l; r] => Some {| IndexedEndpointType_Index := i; IndexedEndpointType_IsDefault := d; IndexedEndpointType_Binding := bnd;
+                                      IndexedEndpointType_Location := l; IndexedEndpointType_ResponseLocation := r |}
+  | _ => None
+  end.
+Definition keydesc_of (sch : schema) (kd : gval) : option (list bytes) :=
+  match field sch "md.KeyDescriptorType" kd "KeyInfo" with
+  | Some ki => match field sch "xml_dsig.KeyInfoType" ki "X509Data" with
+               | Some (VList xs) => map_opt (fun x => option_map cert_text (str_field sch "xml_dsig.X509DataType" x "X509Certificate")) xs
+               | _ => None end
+  | None => None
+  end.
+Definition sprec_of (sch : schema) (app : bytes) (g : gval) : option sp_rec :=
+  match str_field sch "md.EntityDescriptorType" g "EntityID", ptr_field sch "md.EntityDescriptorType" g "SPSSODescriptor" with
+  | Some ent, Some (Some d) =>
+      let ty := "md.SPSSODescriptorType" in
+      match str_field sch ty d "AuthnRequestsSigned", field sch ty d "KeyDescriptor", field sch ty d "AssertionConsumerService", field sch ty d "SingleLogoutService" with
+      | Some signed, Some (VList kds), Some (VList acs), Some (VList slo) =>
+          match map_opt (keydesc_of sch) kds, map_opt (acs_of sch) acs, map_opt (fun e => str_field sch "md.EndpointType" e "Location") slo with
+          | Some k, Some a, Some s => Some {| sp_id := app; sp_entity := ent; sp_authn_signed := signed; sp_keydescs := k; sp_acs := a; sp_slo := s |}
+          | _, _, _ => None
+          end
+      | _, _, _, _ => None
+      end
+  | _, _ => None
+  end.
+Definition sprec_of_doc (app : bytes) (doc : rnode) : option sp_rec :=
+  match unmarshal_root xml_schema "md.EntityDescriptorType" doc with Some g => sprec_of xml_schema app g | None => None end.
+
+Definition ep_eqb (x y : IndexedEndpointType) : bool :=
+  beq (IndexedEndpointType_Index x) (IndexedEndpointType_Index y) && beq (IndexedEndpointType_IsDefault x) (IndexedEndpointType_IsDefault y) &&
+  beq (IndexedEndpointType_Binding x) (IndexedEndpointType_Binding y) && beq (IndexedEndpointType_Location x) (IndexedEndpointType_Location y) &&
+  beq (IndexedEndpointType_ResponseLocation x) (IndexedEndpointType_ResponseLocation y).
+Definition sprec_eqb (x y : sp_rec) : bool :=
+  beq (sp_id x) (sp_id y) && beq (sp_entity x) (sp_entity y) && beq (sp_authn_signed x) (sp_authn_signed y) &&
+  list_eqb (list_eqb beq) (sp_keydescs x) (sp_keydescs y) && list_eqb ep_eqb (sp_acs x) (sp_acs y) && list_eqb beq (sp_slo x) (sp_slo y).
+(** the provider record of a case against the registered document *)
+Definition sp_doc_ok (sp : option sp_rec) (doc : option rnode) : bool :=
+  match sp, doc with
+  | Some s, Some d => option_eqb sprec_eqb (sprec_of_doc (sp_id s) d) (Some s)
+  | _, _ => true
+  end.
+
+(** registration keeps the consumer services in document order: the i-th AssertionConsumerService child of the
+    SPSSODescriptor is the i-th entry the selection function sees *)
+Example sprec_of_doc_example :
+  let m := b "urn:oasis:names:tc:SAML:2.0:metadata" in
+  let acs i bnd loc := RElem m (b "AssertionConsumerService") [([], b "Binding", b bnd); ([], b "Location", b loc); ([], b "index", b i)] [] in
+  option_map (fun s => (sp_entity s, map IndexedEndpointType_Location (sp_acs s), map IndexedEndpointType_Index (sp_acs s), sp_slo s))
+    (sprec_of_doc (b "app") (RElem m (b "EntityDescriptor") [([], b "entityID", b "https://sp")]
+       [RElem m (b "SPSSODescriptor") [] [acs "9" "B" "second-by-index-first-in-document"; acs "1" "A" "l1";
+                                          RElem m (b "SingleLogoutService") [([], b "Binding", b "X"); ([], b "Location", b "slo1"); ([], b "ResponseLocation", b "other")] []]]))
+  = Some (b "https://sp", [b "second-by-index-first-in-document"; b "l1"], [b "9"; b "1"], [b "slo1"]).
+Proof. vm_compute. reflexivity. Qed.
